@@ -57,6 +57,15 @@ CLAIMED = {
               "that copying adds an owner and closes nothing and that destroying owners in any order closes the library exactly once, after the last."),
         note=TRUST + " getenv, dlopen/dlsym/dlclose/dlerror and std::shared_ptr are assumed contracts / stub bodies; the real loader is not exercised by the proof (only by the native replay).",
         ref="5 (C19)", technique="CBMC function contracts (DFCC) with ghost loader state, extracted deleter lambdas and a reference-count history lemma"),
+    "C16": dict(
+        text=("Modular proof: the combiner is proved against the bit-vector formula and, on its extracted body, injective in the value for a fixed "
+              "seed (a changed component changes the running hash) and order-sensitive (MUSTFAIL obligations refute 'hash(x,y) == hash(y,x) for all x,y' "
+              "and 'hash(x,x) == 0 for all x'); hash_combine_tuple / hash_combine_variant are verified as index recursions (every component from I on "
+              "is hashed exactly once in increasing order; exactly the active alternative), hash of tuple/pair/variant/unique_ptr/shared_ptr/std-hashable/"
+              "hashable and hash_wrapper by contract, so the hash is a function of the member tuple and equal values hash equal given std::hash does. "
+              "The six operators of tuple_operators return the same comparison of the member tuples; hash() hashes the whole member tuple."),
+        note=TRUST + " std::hash respects == and std::tuple comparison is lexicographic are assumed; 'up to rare collisions' is statistical and not decided.",
+        ref="5 (C16)", technique="CBMC function contracts (DFCC), bit-vector lemmas on the extracted combiner, index recursion for template recursion"),
     "C07": dict(
         text=("Same functions as C06, abstract-view postconditions: appends add at the end, erase removes one element and shifts the tail, "
               "positional emplace inserts before pos, copy yields equal elements on independent storage, move/assignment transfer the whole "
